@@ -7,7 +7,7 @@ C07 — model of the static file server's path handling, as the code is (unix bu
 * `fastAbs`              `caddy.FastAbs` against the cached working directory `cwd`
 * `fileHidden`           `fileserver.fileHidden` + `transformHidePaths` (staticfiles.go)
 * `serve`                decision skeleton of `FileServer.ServeHTTP` + `serveBrowse` +
-                         `directoryListing` over an abstract filesystem `FS`
+                         `directoryListing` (as of fix cfacd08) over an abstract filesystem `FS`
 * `matchFile`            `MatchFile.selectFile` (first_exist / first_exist_fallback): candidate
                          construction, `fs.Glob`, `strictFileExists`
 
@@ -233,14 +233,32 @@ def pathBase (p : Bytes) : Bytes :=
 
 def sameBase (orig path : Bytes) : Bool := pathBase orig = pathBase path
 
-/-- the entry names a listing shows: `directoryListing` calls `fileHidden(entry.Name(), …)` -/
-def listingNames (c : Cfg) (es : List Entry) : List Bytes :=
-  (es.filter fun e => !c.hidden e.name).map fun e => if e.isDir then e.name ++ [slash] else e.name
+/-- `path.Join(dir, n)` -/
+def pathJoin2 (d n : Bytes) : Bytes :=
+  if d = [] then (if n = [] then [] else pathClean n) else pathClean (d ++ slash :: n)
+
+def showEntry (e : Entry) : Bytes := if e.isDir then e.name ++ [slash] else e.name
+
+/-- the filter `directoryListing` applied before the fix cfacd08: `fileHidden(entry.Name(), …)`
+    on the bare name only (resolved against the working directory).  Kept for `Witness.lean`. -/
+def listingNamesOld (c : Cfg) (es : List Entry) : List Bytes :=
+  (es.filter fun e => !c.hidden e.name).map showEntry
+
+/-- the entry's path as `directoryListing` computes it:
+    `SanitizedPathJoin(root, path.Join(dirURLPath, name))`, where `dirURLPath` is
+    `url.PathUnescape(path.Clean(r.URL.EscapedPath()))`, i.e. the cleaned request path -/
+def entryPath (c : Cfg) (path name : Bytes) : Bytes :=
+  sanitizedPathJoin c.rootE (pathJoin2 (pathClean path) name)
+
+/-- the entry names a listing shows: an entry is skipped if
+    `fileHidden(name, hide) || fileHidden(SanitizedPathJoin(root, path.Join(dirURLPath, name)), hide)` -/
+def listingNames (c : Cfg) (path : Bytes) (es : List Entry) : List Bytes :=
+  (es.filter fun e => !(c.hidden e.name || c.hidden (entryPath c path e.name))).map showEntry
 
 /-- `serveBrowse` -/
 def serveBrowse (c : Cfg) (dirPath : Bytes) (es : List Entry) (path orig : Bytes) : Traced Outcome :=
   if (path = [] || sameBase orig path) && !endsWithSlash orig then (.redirect, [])
-  else (.listing dirPath (listingNames c es), [dirPath])
+  else (.listing dirPath (listingNames c path es), [dirPath])
 
 /-- `openFile` + `http.ServeContent` on the chosen file -/
 def openAndServe (fs : FS) (c : Cfg) (filename : Bytes) : Traced Outcome :=
@@ -330,10 +348,6 @@ def pathSplit : Bytes → Bytes × Bytes
     else ([], c :: cs)
 
 def cleanGlobPath (d : Bytes) : Bytes := if d = [] then dotB else d.dropLast
-
-/-- `path.Join(dir, n)` -/
-def pathJoin2 (d n : Bytes) : Bytes :=
-  if d = [] then (if n = [] then [] else pathClean n) else pathClean (d ++ slash :: n)
 
 /-- the loop of `fs.glob` over the sorted entries; `none` = `path.Match` reported an error -/
 def globEntries (d pat : Bytes) : List Entry → List Bytes → Option (List Bytes)
